@@ -30,7 +30,8 @@ EXPLANATION = (
     'arithmetic; (4) the case labels of the material switch in endGameEval are closed under MatId::mirror, and for every mirrored pair '
     'that ends in a helper call the black call is the sigma-image of the white call (same helper, negated result, colour-swapped '
     'arguments with squares rotated by 180 degrees, side to move inverted, score negated).'
-    ' (5) addSubWeights only loads, stores and applies wrapping 16-bit add / subtract in matching numbers (no clamp, no saturating intrinsic) in every build variant, and the full refresh uses the same routine as the incremental update.')
+    ' (5) addSubWeights only loads, stores and applies wrapping 16-bit add / subtract in matching numbers (no clamp, no saturating intrinsic) in every build variant, and the full refresh uses the same routine as the incremental update.'
+    ' Added later; (7) the classification pass endGameEval<false>, whose result is cached under the material signature alone, branches only on functions of the material (signature, sums, piece counts, presence tests; sums of square-restricted counts over a partition of the board count as piece counts).')
 UNDECIDED = ('numerical equality of incremental and from-scratch network outputs and of the SIMD kernels beyond the group-structure clause 5 (value-level), '
              'left-right mirror symmetry of the network, endgame cases that are written inline rather than as helper calls (listed as not covered).')
 ASSUMPTIONS = ['position domain: at most 30 non-king men', 'the helper evaluations (k*Eval) themselves are written from white\'s point of view']
@@ -48,6 +49,7 @@ def run(fb, rep, tier):
     c4_symmetry(fb, rep)
     c5_accumulator(fb, rep)
     c6_invalidate_current(fb, rep)
+    c7_classification_is_material(fb, rep)
 
 
 # SIMD kernels are selected by compile definitions: the thorough tier re-runs the rules on these builds too
@@ -653,3 +655,196 @@ def c6_invalidate_current(fb, rep):
 def strip_t(s):
     from ..core import strip_targs
     return strip_targs(s)
+
+
+# ----------------------------------------------------------------------------- .7
+
+MATERIAL_GETTERS = ('Position::materialId', 'Position::wMtrl', 'Position::bMtrl', 'Position::wMtrlPawns', 'Position::bMtrlPawns')
+
+
+def _strip77(t):
+    while isinstance(t, dict) and (t.get('k') == 'cast' or t.get('k') == 'paren'):
+        t = t.get('e')
+    return t
+
+
+def c7_classification_is_material(fb, rep):
+    """Cache-key completeness of the material hash: Evaluate::computeMaterialScore stores the result of the classification
+    pass `endGameEval<false>` under the material signature alone, and evalPos uses that cached flag for every later position
+    with the same signature.  So everything the classification pass branches on must be a function of the material: the
+    signature, the material sums, piece counts (bitCount of a piece set) and presence tests of piece sets - never squares,
+    masks, the side to move or the running score."""
+    clause = 'C07.7'
+    cands = [f for f in fb.funcs.values() if f.has_cfg and f.name.replace(' ', '') == 'EndGameEval::endGameEval<false>']
+    if rep.need(clause, cands, 'EndGameEval::endGameEval<false>') is None:
+        return
+    f = cands[0]
+    # the classification result is cached under the material signature: the call site stores it into the material hash entry
+    cs = fb.find1('Evaluate::computeMaterialScore')
+    stored = False
+    if cs is not None:
+        for _, _, e in cs.events():
+            if e.get('k') == 'asg' and any(n.get('k') == 'call' and cname(n).startswith('EndGameEval::endGameEval') for n in walk(e.get('r') or {})) and \
+                    any(n.get('k') == 'mem' for n in walk(e.get('l') or {})):
+                stored = True
+    rep.ob(clause, 'K2 premise', 'the classification result is stored in the material hash entry by computeMaterialScore', stored, cs.where if cs else '', '', 'Evaluate::computeMaterialScore')
+    params = f.d.get('params', [])
+    pos_id = params[0].get('id') if params else None
+    decls = {}
+    assigned = set()
+    for _, _, e in f.events():
+        if e.get('k') == 'decl':
+            for v in e.get('vars', []):
+                decls[v['id']] = v
+        for n in walk(e):
+            if n.get('k') in ('asg', 'incdec'):
+                tgt = _strip77(n.get('l') if n.get('k') == 'asg' else n.get('e'))
+                if isinstance(tgt, dict) and tgt.get('k') == 'var':
+                    assigned.add(tgt.get('id'))
+
+    def piece_set(t):
+        t = _strip77(t)
+        return isinstance(t, dict) and t.get('k') == 'call' and cname(t) == 'Position::pieceTypeBB' and (_strip77(t.get('recv')) or {}).get('id') == pos_id and \
+            all(isinstance(_strip77(a), dict) and 'cv' in _strip77(a) for a in t.get('args', []))
+
+    def count_atom(t):
+        """(piece-set text, mask) if t is bitCount(pieceSet & constant mask)"""
+        t = _strip77(t)
+        if isinstance(t, dict) and t.get('k') == 'call' and cname(t) == 'BitBoard::bitCount' and len(t.get('args', [])) == 1:
+            a = _strip77(t['args'][0])
+            if isinstance(a, dict) and a.get('k') == 'bin' and a.get('op') == '&':
+                for x, y in ((a.get('l'), a.get('r')), (a.get('r'), a.get('l'))):
+                    y = _strip77(y)
+                    if piece_set(x) and isinstance(y, dict) and 'cv' in y:
+                        return (show(_strip77(x), 200), int(y['cv']) & ((1 << 64) - 1))
+        return None
+
+    def lin(t, sign, depth):
+        """linear form {atom: coefficient} of t over square-restricted piece counts; the material part is dropped;
+        None if t contains anything else that is not material"""
+        t = _strip77(t)
+        if not isinstance(t, dict) or depth > 8:
+            return None
+        a = count_atom(t)
+        if a is not None:
+            return {a: sign}
+        if t.get('k') == 'var' and t.get('id') in decls and t.get('id') not in assigned and decls[t['id']].get('init') is not None and 'cv' not in t:
+            return lin(decls[t['id']]['init'], sign, depth + 1)
+        if t.get('k') == 'bin' and t.get('op') in ('+', '-'):
+            l = lin(t.get('l'), sign, depth + 1)
+            r = lin(t.get('r'), sign if t['op'] == '+' else -sign, depth + 1)
+            if l is None or r is None:
+                return None
+            out = dict(l)
+            for a_, c_ in r.items():
+                out[a_] = out.get(a_, 0) + c_
+            return out
+        return {} if material(t, depth + 1) is None else None
+
+    def partitioned(tot):
+        """every piece set occurs with one coefficient over masks that partition the board (then the sum is a piece count)"""
+        groups = {}
+        for (ps, mask), c in tot.items():
+            if c != 0:
+                groups.setdefault(ps, []).append((mask, c))
+        for ps, lst in groups.items():
+            if len({c for _, c in lst}) != 1:
+                return False
+            acc = 0
+            for m_, _ in lst:
+                if acc & m_:
+                    return False
+                acc |= m_
+            if acc != (1 << 64) - 1:
+                return False
+        return True
+
+    def material(t, depth=0):
+        """None if t is a function of the material, else the first offending sub-expression"""
+        t = _strip77(t)
+        if not isinstance(t, dict):
+            return None
+        k = t.get('k')
+        if 'cv' in t and k != 'var':
+            return None
+        if k == 'var':
+            if 'cv' in t or t.get('vk') in ('enum', 'tparam', 'global') or t.get('q'):
+                return None          # constants, enumerators, template parameters, global evaluation parameters: not position state
+            d = decls.get(t.get('id'))
+            if d is not None and d.get('init') is not None and t.get('id') not in assigned and depth < 6:
+                return material(d['init'], depth + 1)
+            return t
+        if k == 'call':
+            n = cname(t)
+            if n in MATERIAL_GETTERS and (_strip77(t.get('recv')) or {}).get('id') == pos_id:
+                return None
+            if n == 'BitBoard::bitCount' and len(t.get('args', [])) == 1 and piece_set(t['args'][0]):
+                return None
+            if piece_set(t):
+                return None          # only reached below a presence test (see bin / un)
+            if n in ('std::max', 'std::min', 'std::abs', 'abs'):
+                for a in t.get('args', []):
+                    r = material(a, depth + 1)
+                    if r is not None:
+                        return r
+                return None
+            if t.get('recv') is not None and not t.get('args') and 'operator' in n and material(t.get('recv'), depth + 1) is None:
+                return None          # conversion of a global evaluation parameter
+            if t.get('op') in ('+', '-', '==', '!=', '<', '>', '<=', '>=') and not t.get('repo'):
+                for a in ([t.get('recv')] if t.get('recv') is not None else []) + t.get('args', []):
+                    r = material(a, depth + 1)
+                    if r is not None:
+                        return r
+                return None
+            return t
+        if k == 'bin':
+            if t.get('op') in ('+', '-', '<', '<=', '>', '>=', '==', '!='):
+                L = lin(t.get('l'), 1, depth)
+                R_ = lin(t.get('r'), -1 if t['op'] != '+' else 1, depth)
+                if L is not None and R_ is not None:
+                    tot = dict(L)
+                    for a_, c_ in R_.items():
+                        tot[a_] = tot.get(a_, 0) + c_
+                    if partitioned(tot):
+                        return None
+            if t.get('op') in ('==', '!='):
+                l, r = _strip77(t.get('l')), _strip77(t.get('r'))
+                for x, y in ((l, r), (r, l)):
+                    if piece_set(x) and isinstance(y, dict) and y.get('cv') == 0:
+                        return None
+            if t.get('op') in ('&', '|', '^', '<<', '>>') and (piece_set(t.get('l')) or piece_set(t.get('r'))):
+                return t             # a piece set combined with a mask is about squares
+            for x in (t.get('l'), t.get('r')):
+                if piece_set(x):
+                    return x         # a bare piece set used as a number
+                r = material(x, depth + 1)
+                if r is not None:
+                    return r
+            return None
+        if k == 'un':
+            return material(t.get('e'), depth + 1)
+        if k == 'cond':
+            for x in (t.get('c'), t.get('t'), t.get('f')):
+                r = material(x, depth + 1)
+                if r is not None:
+                    return r
+            return None
+        return t
+    n_cond = 0
+    bad = []
+    for bid, blk in sorted(f.blocks.items()):
+        if bid in f.dead:
+            continue
+        t = blk.get('term') or {}
+        c = t.get('cond')
+        if c is None:
+            continue
+        c = eff_cond(t) if t.get('c') != 'SwitchStmt' else c
+        n_cond += 1
+        cc = _strip77(c)
+        r = None if piece_set(cc) else material(cc)      # `if (pos.pieceTypeBB(..))` is a presence test
+        if r is not None:
+            bad.append((t.get('ln') or blk.get('ln'), show(c, 80), show(r, 60)))
+    rep.floor(clause, 'live branch conditions of the classification pass', n_cond, 20)
+    rep.ob(clause, 'K13 cache-key completeness', 'every live branch condition of endGameEval<false> is a function of the material (signature, sums, piece counts, presence tests)',
+           not bad, '%s:%s' % (f.file, bad[0][0]) if bad else f.where, '%d conditions; not material: %s' % (n_cond, bad[:3]), f.sname)
